@@ -3,7 +3,6 @@ use std::sync::atomic::{self, AtomicUsize};
 
 use skipfree::{SkipList, SkipListIterator};
 use sst::bounds_cursor::BoundsCursor;
-use sst::pruning_cursor::PruningCursor;
 use sst::{Cursor, Key, KeyRef};
 
 use super::WriteBatch;
@@ -64,12 +63,12 @@ impl MemTable {
         &self,
         start_bound: &Bound<T>,
         end_bound: &Bound<T>,
-        timestamp: u64,
     ) -> Result<MemTableCursor, SError> {
         let iter = self.skiplist.iter();
         let wrapper = SkipListIteratorWrapper { iter };
-        let cursor = PruningCursor::new(wrapper, timestamp)?;
-        let cursor = BoundsCursor::new(cursor, start_bound, end_bound)?;
+        // NOTE:  No pruning here.  The caller merges this cursor with older components and prunes
+        // the merged stream; a tombstone dropped here could not shadow an older component's value.
+        let cursor = BoundsCursor::new(wrapper, start_bound, end_bound)?;
         Ok(MemTableCursor { cursor })
     }
 }
@@ -129,7 +128,7 @@ impl Cursor for SkipListIteratorWrapper {
 ////////////////////////////////////////// MemTableCursor //////////////////////////////////////////
 
 pub struct MemTableCursor {
-    cursor: BoundsCursor<PruningCursor<SkipListIteratorWrapper>>,
+    cursor: BoundsCursor<SkipListIteratorWrapper>,
 }
 
 impl Cursor for MemTableCursor {
